@@ -157,10 +157,31 @@ func rR1(c *Ctx, plugins ...string) {
 			if blank {
 				continue
 			}
+			// reflect+unsafe access to an unexported field of an imported struct: the cast type must be that field's own type
+			badCast := false
+			for _, m := range unsafeCastRe.FindAllStringSubmatch(rs.Run.Text, -1) {
+				th, nh := rs.Run.Holes[m[1]], rs.Run.Holes[m[2]]
+				if th == nil || nh == nil {
+					continue
+				}
+				want := strings.TrimSuffix(nh.Origin, ".Name()") + ".Type()"
+				if strings.TrimPrefix(th.Origin, "bypass:") != want && !badCast {
+					badCast = true
+					c.Rep.fail(Finding{Rule: "R1", Key: fmt.Sprintf("R1|%s|unsafe-cast-type", p), Plugin: p, Script: rs.Run.Script,
+						Msg: fmt.Sprintf("plugin %s reads the unexported field %s (%s) of an imported struct through *(*%s)(unsafe.Pointer(…)) where %s is the type of %s, not of that field: the field's memory is reinterpreted as another type (wrong comparisons/copies, or a compile error when the operator does not fit)",
+							p, m[2], shortSym(nh.Origin), m[1], m[1], shortSym(th.Origin)),
+						Detail: "abstract path: " + rs.Run.describe() + "\nresidual:\n" + rs.Run.excerpt(40)})
+				}
+			}
+			if badCast {
+				continue
+			}
 			c.Rep.pass("R1")
 		}
 	}
 }
+
+var unsafeCastRe = regexp.MustCompile(`\(\*(__T\d+)\)\(__P\d+\.Pointer\(\w+\.FieldByName\("(__N\d+)"\)\.UnsafeAddr\(\)\)\)`)
 
 var universe = func() map[string]bool {
 	m := map[string]bool{}
